@@ -330,6 +330,20 @@ func directedBus(name string, idx int) (*busProgram, func([]who) who) {
 		p.bodies[panicBody] = []action{pub(0, panicRetryBelow+1, 0)}
 		p.threads = [][]action{{sub(0, hspec{fn: 0, async: true, seq: true, filter: -1, body: 1}), sub(0, hspec{fn: 2, filter: -1}), pub(0, 1, 0), {kind: "wait"}, {kind: "count", t: 0}}}
 		return p, newestPick
+	case name == "bus07" && idx == 2:
+		// two goroutines publish - through a wider static type, so that the handler is called by reflection - to one
+		// synchronous Sequential handler; the second is offered the turn whenever it can run: it must wait outside
+		p := base()
+		p.threads = [][]action{{sub(0, hspec{fn: 0, seq: true, filter: -1}), {kind: "pub", t: 0, v: 1, viaAny: true}, {kind: "pub", t: 0, v: 3, viaAny: true}},
+			{{kind: "count", t: 0}, {kind: "pub", t: 0, v: 2, viaAny: true}, {kind: "pub", t: 0, v: 4}}}
+		return p, func(ps []who) who {
+			for _, w := range ps {
+				if w.thread && w.i == 1 {
+					return w
+				}
+			}
+			return ps[0]
+		}
 	case name == "bus08" && idx == 0:
 		// the second of five synchronous handlers - a plain one - cancels the publish's context: none of the later ones
 		// (plain, context-aware, plain) may start; the hooks still run
